@@ -119,8 +119,8 @@ Definition M_entry DI (Cb NT : Matc) (r c : nat) : Cc := Mgen_entry DI Cb NT r c
 Definition step_deriv_entry (phase : Cc) (BTj Mm : Matc) : Cc :=
   cmul Op phase (csumn Op d (fun n => csumn Op d (fun k =>
     cmul Op (cmul Op (ci Op) (mget Op BTj n k)) (mget Op Mm k n)))).
-(* + (n_coeffs_deriv / n_coeffs) * ctrlmat_step *)
-Definition sens_term (ncd_ah nc_a : T) (step_aj : Cc) : Cc := cscal Op (odiv Op ncd_ah nc_a) step_aj.
+(* + n_coeffs_deriv * ctrlmat_step_unit  (control matrix of the noise operator with unit sensitivity; fix 26b5723) *)
+Definition sens_term (ncd_ah : T) (step_unit_aj : Cc) : Cc := cscal Op ncd_ah step_unit_aj.
 
 (* ------------------------------------------------------------------ calculate_derivative_of_control_matrix_from_scratch *)
 Definition nth2 {A} (dflt : A) (l : list (list A)) (i j : nat) : A := nth j (nth i l []) dflt.
@@ -152,6 +152,9 @@ Definition sh_X (Qs basis : list Matc) (G : nat) : list (list (list Matc)) :=
 (* n_opers_transformed[g] = s^g V_g^dagger N V_g *)
 Definition noise_NT (Vs : list Matc) (N : Matc) (s_row : list T) (G : nat) : list Matc :=
   build G (fun g => mscal Op d (cofr Op (vg Op s_row g)) (transform_by_unitary Op d (nthm Vs g) N)).
+(* numeric._transform_hamiltonian(eigvecs, n_opers) without coefficients: V_g^dagger N V_g *)
+Definition noise_NT_unit (Vs : list Matc) (N : Matc) (G : nat) : list Matc :=
+  build G (fun g => transform_by_unitary Op d (nthm Vs g) N).
 (* ctrlmat_step[g][j][o] *)
 Definition noise_steps (G nj no : nat) (phases : list (list Cc)) (BTs ints : list (list Matc)) (NTs : list Matc)
   : list (list (list Cc)) :=
@@ -175,15 +178,16 @@ Definition ctrl_LD (G nj : nat) (Qs UDT : list Matc) (X : list (list (list Matc)
         if Nat.leb s t then ld_entry PD (nth3 [] X t j k) else o0 Op)))).
 
 (* --- one pair (noise operator, control operator) --- *)
-(* ctrlmat_step_deriv[g][j][o]; ncd_row[g] = n_coeffs_deriv[a, h, g], used when [use_ncd] *)
+(* ctrlmat_step_deriv[g][j][o]; ncd_row[g] = n_coeffs_deriv[a, h, g], used when [use_ncd];
+   steps_unit = ctrlmat_step of the unit-sensitivity noise operator *)
 Definition pair_SD (G nj no : nat) (phases : list (list Cc)) (BTs : list (list Matc)) (DIs : list (list Arr4))
-           (NTs CBs : list Matc) (steps : list (list (list Cc)))
-           (use_ncd : bool) (ncd_row s_row : list T) : list (list (list Cc)) :=
+           (NTs CBs : list Matc) (steps_unit : list (list (list Cc)))
+           (use_ncd : bool) (ncd_row : list T) : list (list (list Cc)) :=
   build G (fun g =>
     let Ms := build no (fun o => mbuild d d (M_entry (a4get (nth2 [] DIs g o)) (nthm CBs g) (nthm NTs g))) in
     build nj (fun j => build no (fun o =>
       let base := step_deriv_entry (nth2 (c0 Op) phases g o) (nth2 [] BTs g j) (nthm Ms o) in
-      if use_ncd then cadd Op base (sens_term (vg Op ncd_row g) (vg Op s_row g) (nth3 (c0 Op) steps g j o))
+      if use_ncd then cadd Op base (sens_term (vg Op ncd_row g) (nth3 (c0 Op) steps_unit g j o))
       else base))).
 
 (* ctrlmat_deriv[h, o, s, a, k] = sum_j step_deriv[s][j][o] L_s[j][k]
@@ -221,7 +225,8 @@ Definition pair_of (G nj no : nat) (phases : list (list Cc)) (BTs ints : list (l
            (cd : list Matc * list (list (list (list T)))) (use_ncd : bool) (ncd_row : list T) : list (list (list Cc)) :=
   let NTs := noise_NT Vs N s_row G in
   let steps := noise_steps G nj no phases BTs ints NTs in
-  let SD := pair_SD G nj no phases BTs DIs NTs (fst cd) steps use_ncd ncd_row s_row in
+  let steps_unit := noise_steps G nj no phases BTs ints (noise_NT_unit Vs N G) in
+  let SD := pair_SD G nj no phases BTs DIs NTs (fst cd) steps_unit use_ncd ncd_row in
   pair_deriv G nj no Ls steps SD (snd cd).
 
 (* calculate_derivative_of_control_matrix_from_scratch: result [a][h][s][o][k]
@@ -253,10 +258,34 @@ Definition filter_function_derivative (na nh G nj no : nat) (Bm : Arr3)
 Definition infid_deriv_entry (omega S_a FD_ash : list T) : T :=
   odiv Op (trapz Op (map (fun x => omul Op (fst x) (snd x)) (combine S_a FD_ash)) omega)
           (omul Op (omul Op (o2 Op) (opi Op)) (oZ Op (Z.of_nat d))).
-(* spec[a][o] (already broadcast by parse_spectrum) *)
-Definition infidelity_derivative (omega : list T) (spec : list (list T)) (FD : list (list (list (list T))))
-  : list (list (list T)) :=
-  map (fun x => map (map (fun FD_ash => infid_deriv_entry omega (fst x) FD_ash)) (snd x)) (combine spec FD).
+(* the identity component (fix 49bf6b9): seg[g][o] = _first_order_integral(omega, [0], dt_g)[o] * e^{i t_g w_o} *)
+Definition ident_seg (thr : T) (ts dts omega : list T) : list (list Cc) :=
+  build (length dts) (fun g => map (fun w =>
+    cmul Op (foi_entry Op thr w (o0 Op) (o0 Op) (vg Op dts g)) (cexp Op (omul Op (vg Op ts g) w))) omega).
+(* ident[a, o] = tr(B_a) * sum_g s_a^g seg[g, o] *)
+Definition ident_entry (G : nat) (tr_a : Cc) (s_row : list T) (seg_o : nat -> Cc) : Cc :=
+  cmul Op tr_a (csumn Op G (fun g => cscal Op (vg Op s_row g) (seg_o g))).
+(* ident_deriv[a, g, h, o] = tr(B_a) * n_coeffs_deriv[a, h, g] * seg[g, o] *)
+Definition ident_deriv_entry (tr_a : Cc) (ncd_ahg : T) (seg_go : Cc) : Cc := cmul Op tr_a (cscal Op ncd_ahg seg_go).
+(* filter_function_deriv - 2 Re(conj(ident) ident_deriv) / d *)
+Definition ffd_minus_ident (FD_agho : T) (id_ao idd_agho : Cc) : T :=
+  osub Op FD_agho (odiv Op (omul Op (o2 Op) (fst (cmul Op (cconj Op id_ao) idd_agho))) (oZ Op (Z.of_nat d))).
+
+(* spec[a][o] (already broadcast by parse_spectrum); nopers / ncoeffs / ncd are the SELECTED ones *)
+Definition infidelity_derivative (thr : T) (omega : list T) (spec : list (list T)) (FD : list (list (list (list T))))
+           (use_ncd : bool) (ncd : list (list (list T))) (nopers : list Matc) (ncoeffs : list (list T))
+           (dts ts : list T) : list (list (list T)) :=
+  let G := length dts in let no := length omega in
+  let seg := ident_seg thr ts dts omega in
+  build (length FD) (fun a =>
+    let tr_a := mtrace Op d (nthm nopers a) in
+    let id_a := build no (fun o => ident_entry G tr_a (nthv ncoeffs a) (fun g => nth2 (c0 Op) seg g o)) in
+    build G (fun g => build (length (nth2 [] FD a g)) (fun h =>
+      let FDc := if use_ncd
+                 then build no (fun o => ffd_minus_ident (nth4 (o0 Op) FD a g h o) (nth o id_a (c0 Op))
+                                           (ident_deriv_entry tr_a (nth3 (o0 Op) ncd a h g) (nth2 (c0 Op) seg g o)))
+                 else nth3 [] FD a g h in
+      infid_deriv_entry omega (nthv spec a) FDc))).
 
 End Grad.
 
